@@ -126,6 +126,30 @@ def uri_sweep(nseg, limit=None, module_directory=False, seed=0):
                                 bad.append({"uri": uri, "content_from_outside": t.filename})
                         if len(bad) > 3:
                             return n, bad
+        # leading separator runs that mix the two separators, in front of the absolute path of a file outside the root
+        outside = os.path.join(root, "secret")
+        for dirspec in (tdir,):
+            lk = TemplateLookup(directories=[dirspec], **kw)
+            for lead in ("/", "\\", "\\/", "/\\", "/\\/", "\\\\/", "//\\/", "\\/\\/", "\\//"):
+                for tail in (outside.lstrip("/"), outside.lstrip("/").replace("/", "\\"), "t/../" + "secret", "..\\secret"):
+                    uri = lead + tail
+                    n += 1
+                    del opened[:]
+                    try:
+                        t = lk.get_template(uri)
+                    except exceptions.TemplateLookupException:
+                        t = None
+                    except Exception:
+                        t = None
+                    real_t = os.path.realpath(tdir)
+                    if t is not None:
+                        fn = os.path.realpath(t.filename)
+                        if not (fn == real_t or fn.startswith(real_t + os.sep)):
+                            bad.append({"uri": uri, "returned_filename": t.filename})
+                    for f in opened:
+                        rf = os.path.realpath(f)
+                        if rf == os.path.realpath(outside):
+                            bad.append({"uri": uri, "opened_outside": f})
         return n, bad
     finally:
         active[0] = False
